@@ -24,9 +24,9 @@ type sop struct {
 func (o sop) String() string {
 	switch o.K {
 	case "set":
-		return fmt.Sprintf("set(%s,%d)", o.Key, o.TTL)
+		return fmt.Sprintf("set(%q,%d)", o.Key, o.TTL)
 	case "get", "del":
-		return o.K + "(" + o.Key + ")"
+		return fmt.Sprintf("%s(%q)", o.K, o.Key)
 	case "adv":
 		return "adv(" + fmtD(o.D) + ")"
 	}
@@ -40,12 +40,13 @@ type seqPlan struct {
 	interval time.Duration
 	initSize int32
 	keys     []string
+	vtype    string // value type of the cache under test: string | int | ptr (the first Set stores the zero value)
 	ops      []sop
 }
 
 func (p seqPlan) String() string {
 	var sb strings.Builder
-	fmt.Fprintf(&sb, "%s %s maxTTL=%d interval=%v init=%d keys=%s :", p.mode, p.name, p.maxTTL, p.interval, p.initSize, strings.Join(p.keys, ""))
+	fmt.Fprintf(&sb, "%s %s maxTTL=%d interval=%v init=%d keys=%q V=%s :", p.mode, p.name, p.maxTTL, p.interval, p.initSize, p.keys, p.vtype)
 	for _, o := range p.ops {
 		sb.WriteByte(' ')
 		sb.WriteString(o.String())
@@ -159,7 +160,14 @@ func boundaryPlans() []seqPlan {
 	for _, maxTTL := range []int64{0, 1, 3} {
 		for _, ttl := range []int64{1, 2, 3, 4, 7} {
 			for _, phase := range []time.Duration{0, 1, 123456789} {
-				for _, variant := range []string{"plain", "cleanup", "shorter", "longer", "delreset"} {
+				for vi, variant := range []string{"plain", "cleanup", "shorter", "longer", "delreset", "plain/zerokey", "cleanup/zerokey", "shorter/zerokey", "longer/zerokey", "delreset/zerokey", "zerokey-live-through-cleanups"} {
+					// the zero-value key "" is a legal key like any other
+					ka := "a"
+					if strings.Contains(variant, "zerokey") {
+						ka = ""
+					}
+					variantName := variant
+					variant = strings.TrimSuffix(variant, "/zerokey")
 					b := newBuilder(maxTTL)
 					b.adv(phase)
 					probe := func(k string) {
@@ -178,56 +186,74 @@ func boundaryPlans() []seqPlan {
 					}
 					switch variant {
 					case "plain", "cleanup":
-						b.set("a", ttl)
+						b.set(ka, ttl)
 						b.set("b", ttl+1)
-						b.get("a")
-						edge("a")
+						b.get(ka)
+						edge(ka)
 						b.get("b")
 						edge("b")
 						b.adv(10 * sec)
-						probe("a")
+						probe(ka)
 					case "shorter":
-						b.set("a", ttl+3)
+						b.set(ka, ttl+3)
 						b.adv(400 * time.Millisecond)
-						b.set("a", ttl)
-						b.get("a")
-						edge("a")
+						b.set(ka, ttl)
+						b.get(ka)
+						edge(ka)
 						b.adv(5 * sec)
-						b.get("a")
+						b.get(ka)
 					case "longer":
-						b.set("a", ttl)
-						old := b.md.m["a"].exp
+						b.set(ka, ttl)
+						old := b.md.m[ka].exp
 						b.adv(400 * time.Millisecond)
-						b.set("a", ttl+3)
+						b.set(ka, ttl+3)
 						// at the first entry's expiry the key must follow the second Set
 						b.adv(old - 1 - b.md.now)
-						b.get("a")
+						b.get(ka)
 						b.adv(old - b.md.now)
-						b.get("a")
+						b.get(ka)
 						b.cleanup()
-						edge("a")
+						edge(ka)
+					case "zerokey-live-through-cleanups":
+						// a live entry under "" while Cleanup runs with nothing expired, then with other entries expired
+						b.set(ka, ttl+2)
+						b.cleanup()
+						b.get(ka)
+						b.set("b", 1)
+						b.set("c", 1)
+						b.cleanup()
+						b.get(ka)
+						b.advTo("b", 0)
+						b.cleanup()
+						b.get(ka)
+						b.advTo("b", 1)
+						b.cleanup()
+						b.get(ka)
+						b.cleanup()
+						b.get(ka)
+						edge(ka)
 					case "delreset":
-						b.set("a", ttl)
+						b.set(ka, ttl)
 						b.set("b", ttl+2)
-						b.del("a")
-						b.get("a")
+						b.del(ka)
+						b.get(ka)
 						b.get("b")
-						b.set("a", ttl)
+						b.set(ka, ttl)
 						b.reset()
-						b.get("a")
+						b.get(ka)
 						b.get("b")
 						b.set("b", ttl)
 						b.del("zz")
 						edge("b")
-						b.set("a", ttl)
+						b.set(ka, ttl)
 						b.adv(500 * time.Millisecond)
-						b.del("a")
+						b.del(ka)
 						b.cleanup()
-						b.set("a", ttl+1)
-						edge("a")
+						b.set(ka, ttl+1)
+						edge(ka)
 					}
-					out = append(out, seqPlan{mode: "boundary", name: fmt.Sprintf("%s/ttl%d/phase%d", variant, ttl, phase), maxTTL: maxTTL,
-						interval: farInterval, keys: []string{"a", "b"}, ops: b.ops})
+					out = append(out, seqPlan{mode: "boundary", name: fmt.Sprintf("%s/ttl%d/phase%d", variantName, ttl, phase), maxTTL: maxTTL,
+						interval: farInterval, keys: []string{ka, "b", "c"}, vtype: []string{"string", "int", "ptr"}[(vi+int(ttl)+int(phase%7))%3], ops: b.ops})
 				}
 			}
 		}
@@ -242,7 +268,8 @@ func genSeq(rng *mon.RNG, mode string) seqPlan {
 	pl := seqPlan{mode: mode, name: "random", interval: farInterval}
 	pl.maxTTL = int64(rng.PickInt(0, 0, 2, 3, 5))
 	pl.initSize = int32(rng.PickInt(0, 0, 1, 2, 16))
-	pl.keys = []string{"a", "b", "c", "d", "e", "f", "g", "h"}[:rng.Range(2, 8)]
+	pl.keys = []string{"", "a", "b", "c", "d", "e", "f", "g"}[:rng.Range(2, 8)]
+	pl.vtype = rng.PickStr("string", "string", "int", "ptr")
 	grid := advGrid
 	if mode == "seqtick" {
 		pl.interval = []time.Duration{500 * time.Millisecond, sec, 2 * sec, 1500 * time.Millisecond}[rng.Intn(4)]
@@ -311,18 +338,67 @@ func (w *seqWorld) violation(sig, msg string) {
 	rec.Violation(w.idx, sig, msg, map[string]any{"plan": w.pl.String(), "log": w.log})
 }
 
+// runSeq runs the plan against Cache[V] for the plan's value type. The n-th Set
+// stores enc(n); enc(1) is V's zero value, which must come back as a hit like
+// any other value.
 func runSeq(t *testing.T, idx int, pl seqPlan) {
+	switch pl.vtype {
+	case "int":
+		runSeqV(t, idx, pl, func(n int) int { return n - 1 })
+	case "ptr":
+		cells := map[int]*int{}
+		runSeqV(t, idx, pl, func(n int) *int {
+			if n == 1 {
+				return nil
+			}
+			if cells[n] == nil {
+				cells[n] = new(int)
+			}
+			return cells[n]
+		})
+	default:
+		runSeqV(t, idx, pl, func(n int) string {
+			if n == 1 {
+				return ""
+			}
+			return fmt.Sprintf("s%d", n)
+		})
+	}
+}
+
+func runSeqV[V comparable](t *testing.T, idx int, pl seqPlan, enc func(n int) V) {
 	desc := pl.String()
 	rec.Begin(idx, desc)
 	w := &seqWorld{idx: idx, pl: pl}
 	var hits, missesOfSet, ncleanup int
 	res := mon.Bubble(t, func() {
 		start := time.Now()
-		c := ttlcache.NewCache[string](ttlcache.CacheOptions{InitialSize: pl.initSize, CleanupInterval: pl.interval, MaxTTL: pl.maxTTL})
+		c := ttlcache.NewCache[V](ttlcache.CacheOptions{InitialSize: pl.initSize, CleanupInterval: pl.interval, MaxTTL: pl.maxTTL})
 		ticking := pl.interval < farInterval
 		synctest.Wait()
 		md := newModel(pl.maxTTL)
 		valKey := map[string]string{}
+		labels := map[V]string{} // stored value -> label "v<n>" of the Set that stored it
+		labelOf := func(v V, ok bool) string {
+			if !ok {
+				return ""
+			}
+			if l, known := labels[v]; known {
+				return l
+			}
+			return fmt.Sprintf("?%v", v)
+		}
+		// since the last Set of a key: manual cleanups with / without expired entries around, ticks
+		type since struct{ withExpired, nothingExpired, ticks int }
+		sinceSet := map[string]*since{}
+		anyExpired := func() bool {
+			for k, e := range md.m {
+				if e.state == "set" && !md.live(k) {
+					return true
+				}
+			}
+			return false
+		}
 		nval := 0
 		lastOp := "start"
 		probeKeys := append(append([]string{}, pl.keys...), "zz")
@@ -330,14 +406,15 @@ func runSeq(t *testing.T, idx int, pl seqPlan) {
 
 		// get performs one Get and judges it against the reference.
 		get := func(key, site string) (string, bool) {
-			got, ok := c.Get(key)
+			raw, ok := c.Get(key)
+			got := labelOf(raw, ok)
 			e := md.m[key]
 			want := md.live(key)
 			label := "get"
 			if site != "get" {
 				label = site + " get"
 			}
-			logf("%s(%s) -> %q,%v want-hit=%v", label, key, got, ok, want)
+			logf("%s(%q) -> %q,%v want-hit=%v", label, key, got, ok, want)
 			pre := "seq/" + site + "/"
 			switch {
 			case ok && !want:
@@ -358,7 +435,7 @@ func runSeq(t *testing.T, idx int, pl seqPlan) {
 						}
 					}
 				}
-				w.violation(pre+shape, fmt.Sprintf("Get(%s) at %s returned %q; reference: %+v", key, fmtD(md.now), got, e))
+				w.violation(pre+shape, fmt.Sprintf("Get(%q) at %s returned %q; reference: %+v", key, fmtD(md.now), got, e))
 			case ok && want && got != e.val:
 				shape := "value-never-stored"
 				if k2, known := valKey[got]; known && k2 == key {
@@ -366,16 +443,30 @@ func runSeq(t *testing.T, idx int, pl seqPlan) {
 				} else if known {
 					shape = "value-of-other-key"
 				}
-				w.violation(pre+"wrong-value/"+shape, fmt.Sprintf("Get(%s) at %s returned %q, the value most recently Set is %q", key, fmtD(md.now), got, e.val))
+				w.violation(pre+"wrong-value/"+shape, fmt.Sprintf("Get(%q) at %s returned %q, the value most recently Set is %q", key, fmtD(md.now), got, e.val))
 			case !ok && want:
 				shape := "miss-live-entry/after-" + lastOp
 				if e.exp-md.now == 1 {
 					shape += "/1ns-before-expiry"
 				}
-				w.violation(pre+shape, fmt.Sprintf("Get(%s) at %s missed; reference holds %q set at %s ttl=%d (effective %d) expiring at %s", key, fmtD(md.now), e.val, fmtD(e.setAt), e.ttl, e.eff, fmtD(e.exp)))
+				w.violation(pre+shape, fmt.Sprintf("Get(%q) at %s missed; reference holds %q set at %s ttl=%d (effective %d) expiring at %s", key, fmtD(md.now), e.val, fmtD(e.setAt), e.ttl, e.eff, fmtD(e.exp)))
 			case ok:
 				hits++
 				rec.Count("seq.get.hit", 1)
+				if got == "v1" {
+					rec.Count("seq.zero_value.hits_"+pl.vtype, 1)
+				}
+				if sc := sinceSet[key]; key == "" && sc != nil {
+					if sc.withExpired > 0 {
+						rec.Count("seq.zero_key.hits_after_cleanup_that_met_expired_entries", 1)
+					}
+					if sc.nothingExpired > 0 {
+						rec.Count("seq.zero_key.hits_after_cleanup_with_nothing_expired", 1)
+					}
+					if sc.ticks > 0 {
+						rec.Count("seqtick.zero_key.hits_after_periodic_cleanup", 1)
+					}
+				}
 				if e.exp-md.now == 1 {
 					rec.Count("seq.boundary.hit_1ns_before_expiry", 1)
 				}
@@ -423,9 +514,11 @@ func runSeq(t *testing.T, idx int, pl seqPlan) {
 				nval++
 				val := fmt.Sprintf("v%d", nval)
 				valKey[val] = o.Key
+				labels[enc(nval)] = val
+				sinceSet[o.Key] = &since{}
 				rel := md.set(o.Key, val, o.TTL)
-				logf("set(%s,%s,%d) exp=%s", o.Key, val, o.TTL, fmtD(md.m[o.Key].exp))
-				c.Set(o.Key, val, o.TTL)
+				logf("set(%q,%s=%v,%d) exp=%s", o.Key, val, enc(nval), o.TTL, fmtD(md.m[o.Key].exp))
+				c.Set(o.Key, enc(nval), o.TTL)
 				if rel != "" {
 					rec.Count("seq.set.overwrite_"+rel, 1)
 				}
@@ -436,7 +529,7 @@ func runSeq(t *testing.T, idx int, pl seqPlan) {
 			case "get":
 				get(o.Key, "get")
 			case "del":
-				logf("delete(%s)", o.Key)
+				logf("delete(%q)", o.Key)
 				c.Delete(o.Key)
 				md.del(o.Key)
 				rec.Count("seq.delete", 1)
@@ -462,13 +555,22 @@ func runSeq(t *testing.T, idx int, pl seqPlan) {
 					break
 				}
 				logf("cleanup")
+				exp := anyExpired()
+				for _, sc := range sinceSet {
+					if exp {
+						sc.withExpired++
+					} else {
+						sc.nothingExpired++
+					}
+				}
 				c.Cleanup()
 				ncleanup++
 				rec.Count("seq.cleanup.calls", 1)
 				for _, k := range probeKeys {
-					v, ok := c.Get(k)
+					rawv, ok := c.Get(k)
+					v := labelOf(rawv, ok)
 					bf := before[k]
-					logf("post-cleanup get(%s) -> %q,%v", k, v, ok)
+					logf("post-cleanup get(%q) -> %q,%v", k, v, ok)
 					rec.Count("seq.cleanup.probed_pairs", 1)
 					if e := md.m[k]; e != nil && e.state == "set" {
 						if md.live(k) {
@@ -489,7 +591,7 @@ func runSeq(t *testing.T, idx int, pl seqPlan) {
 					} else if !bf.ok && ok {
 						shape = "entry-appeared"
 					}
-					w.violation("seq/cleanup/changed-get-outcome/"+shape, fmt.Sprintf("Get(%s) at %s was %q,%v before a manual Cleanup and %q,%v after it; reference: %+v", k, fmtD(md.now), bf.v, bf.ok, v, ok, md.m[k]))
+					w.violation("seq/cleanup/changed-get-outcome/"+shape, fmt.Sprintf("Get(%q) at %s was %q,%v before a manual Cleanup and %q,%v after it; reference: %+v", k, fmtD(md.now), bf.v, bf.ok, v, ok, md.m[k]))
 					break
 				}
 				lastOp = "cleanup"
@@ -503,6 +605,9 @@ func runSeq(t *testing.T, idx int, pl seqPlan) {
 					synctest.Wait()
 					if k := int64(md.now/pl.interval) - int64(from/pl.interval); k > 0 {
 						rec.Count("seqtick.ticks", int(k))
+						for _, sc := range sinceSet {
+							sc.ticks++
+						}
 						lastOp = "tick"
 						if md.now%pl.interval == 0 {
 							rec.Count("seqtick.ticks_at_op_instants", 1)
